@@ -645,6 +645,26 @@ class PteraTransformer(NodeTransformer):
             node,
         )
 
+    def visit_With(self, node):
+        new_body = []
+        for item in node.items:
+            if item.optional_vars is not None:
+                new_body.extend(self.generate_interactions(item.optional_vars))
+        new_body.extend(self.visit_body(node.body))
+        return ast.copy_location(
+            ast.With(
+                items=[
+                    ast.withitem(
+                        context_expr=self.visit(item.context_expr),
+                        optional_vars=item.optional_vars,
+                    )
+                    for item in node.items
+                ],
+                body=new_body,
+            ),
+            node,
+        )
+
     def visit_ExceptHandler(self, node):
         if node.name is None:
             new_body = []
@@ -792,8 +812,9 @@ class PteraTransformer(NodeTransformer):
         """
         stmts = [node]
         for alias in node.names:
-            name = alias.asname or alias.name
-            if "." not in name:
+            # import a.b binds a
+            name = alias.asname or alias.name.split(".")[0]
+            if name != "*":
                 name_node = ast.copy_location(
                     ast.Name(id=name, context=ast.Load()),
                     node,
